@@ -53,24 +53,33 @@ def main():
         out["demo_without_patch_exit"] = rc
         if rc != 0:
             out["demo_without_patch_output"] = (o + e)[-500:]
+        out["confirmed"] = bool(out.get("suite_passes") and out.get("demo_with_patch_exit") not in (0, None)
+                                and out.get("demo_without_patch_exit") == 0)
+        # run the checks against the patched scratch copy (VERIF_REPO), so that /repo itself is never touched
+        rc, o, e = sh(["git", "apply", patch], cwd=wt)
+        assert rc == 0, e
+        results = {}
+        scratch = f"/tmp/tryseed_out_{os.getpid()}"
+        env2 = dict(os.environ, VERIF_REPO=wt, VERIF_EVIDENCE_DIR=os.path.join(scratch, "evidence"),
+                    VERIF_REPLAY_DIR=os.path.join(scratch, "replays"))
+        for c in checks:
+            t0 = time.time()
+            rc, o, e = sh([os.path.join(HERE, "check"), c, "--tier", tier], cwd=HERE, env=env2, timeout=7200)
+            lines = [ln for ln in o.splitlines() if ln.startswith(("VIOLATION", "HARNESS", "#", c))]
+            first = None
+            for ln in lines:
+                if ln.startswith("VIOLATION"):
+                    try:
+                        rec = json.load(open(ln.split("replay=", 1)[1]))
+                        first = {"kind": rec.get("kind"), "case_id": str(rec.get("case_id"))[:200]}
+                    except Exception:
+                        pass
+                    break
+            results[c] = {"exit": rc, "wall_s": round(time.time() - t0, 1), "lines": lines[:3] + lines[-1:], "first_violation": first}
+        shutil.rmtree(scratch, ignore_errors=True)
     finally:
         sh(["git", "-C", "/repo", "worktree", "remove", "--force", wt])
         shutil.rmtree(wt, ignore_errors=True)
-    out["confirmed"] = bool(out.get("suite_passes") and out.get("demo_with_patch_exit") not in (0, None) and out.get("demo_without_patch_exit") == 0)
-    # run the checks against /repo with the patch applied
-    rc, o, e = sh(["git", "-C", "/repo", "status", "--porcelain", "--untracked-files=no"])
-    assert o.strip() == "", "/repo has uncommitted changes:\n" + o
-    rc, o, e = sh(["git", "-C", "/repo", "apply", patch])
-    assert rc == 0, e
-    results = {}
-    try:
-        for c in checks:
-            t0 = time.time()
-            rc, o, e = sh([os.path.join(HERE, "check"), c, "--tier", tier], cwd=HERE, timeout=7200)
-            lines = [ln for ln in o.splitlines() if ln.startswith(("VIOLATION", "HARNESS", "#", c))]
-            results[c] = {"exit": rc, "wall_s": round(time.time() - t0, 1), "lines": lines[:4] + lines[-1:]}
-    finally:
-        sh(["git", "-C", "/repo", "checkout", "--", "."])
     out["checks"] = results
     out["detected_by"] = [c for c, r in results.items() if r["exit"] == 1]
     print(json.dumps(out, indent=1))
